@@ -6,6 +6,8 @@ cfg = {fn[:-5]: json.load(open(os.path.join(V, "checks.d", fn))) for fn in sorte
 meta = json.load(open(os.path.join(V, "manifest_meta.json")))
 checks = []
 for cid in sorted(cfg):
+    if cid in meta.get("pending", []):
+        continue
     m = meta["checks"].get(cid, {})
     c = {
         "property_id": cid,
@@ -19,7 +21,8 @@ for cid in sorted(cfg):
         "technique": m.get("technique", "deterministic simulation with fault injection (seeded schedule/fault search)"),
     }
     checks.append(c)
-na = [x for x in meta["not_applicable"] if x["property_id"] not in cfg]
+claimed = {c["property_id"] for c in checks}
+na = [x for x in meta["not_applicable"] if x["property_id"] not in claimed]
 man = {
     "version": 1,
     "setup_cmd": "bin/vcheck build",
